@@ -26,9 +26,9 @@ func (s Status) String() string {
 
 // Obligation is one decided (or undecided) rule instance.
 type Obligation struct {
-	Rule   string `json:"rule"`   // e.g. E1.slice
-	Key    string `json:"key"`    // rule / package.Func / normalised construct – never a line number
-	Pos    string `json:"pos"`    // file:line (diagnostic only)
+	Rule   string `json:"rule"` // e.g. E1.slice
+	Key    string `json:"key"`  // rule / package.Func / normalised construct – never a line number
+	Pos    string `json:"pos"`  // file:line (diagnostic only)
 	Status Status `json:"-"`
 	St     string `json:"status"`
 	Detail string `json:"detail,omitempty"` // witness state / path
